@@ -310,7 +310,7 @@ Full(fam, key) ==
             {[op |-> fam, shapes |-> <<key>> \o [k \in 1..Len(r) |-> <<key[1]>> \o r[k]]] :
                  r \in SeqsUpTo(ShapesTo0(2), 0, 2)}
       [] fam = "tensordot" ->
-            \* candidates (Keep filters them with ValidCfg): normalised mode lists first, then every
+            \* candidates (Keep filters them with BaseOK): normalised mode lists first, then every
             \* way of passing them: pair / int form, and which arguments are SPELLED with negative numbers
             LET N1 == Len(key) IN
             UNION {UNION {UNION {
@@ -362,8 +362,9 @@ Fields(op) ==
       [] op = "sampled_kr" -> {"op", "rows", "R", "skip", "ns", "given"}
       [] OTHER -> {}
 
-ValidCfg(c) ==
-    /\ "op" \in DOMAIN c /\ c.op \in Families /\ DOMAIN c = Fields(c.op)
+\* validity of the operation part of a configuration (the argument-form fields are checked by ValidCfg below)
+BaseOK(c) ==
+    /\ "op" \in DOMAIN c /\ c.op \in Families /\ Fields(c.op) \subseteq DOMAIN c
     /\ CASE c.op = "mode_dot" ->
               /\ IsShape(c.shape, 1, MaxOrder) /\ c.mode \in 0..(Len(c.shape) - 1)
               /\ IsBool(c.vec) /\ IsBool(c.tr) /\ IsBool(c.bad)
@@ -499,8 +500,74 @@ ThinTab ==
                    outer |-> 7, batched_outer |-> 11, tensordot |-> 67, mttkrp |-> 5, moment |-> 1, sampled_kr |-> 17]]
 Thin(c) == ThinTab[Tier][c.op] * (IF Raises(c) THEN 5 ELSE 1)
 Keep(c) == /\ (Thin(c) = 1 \/ Hash(Flat(c), Thin(c)) = 0)
-           /\ (c.op = "tensordot" => ValidCfg(c))        \* Full("tensordot") is a candidate set
+           /\ (c.op = "tensordot" => BaseOK(c))          \* Full("tensordot") is a candidate set
            /\ OutSize(c) <= MaxOut /\ InSizeOK(c)
+
+
+\* ---- argument forms ------------------------------------------------------------------------
+(* Three dimensions of HOW the same mathematical call is spelled.  The expected value never       *)
+(* depends on them; they are configuration fields (checked by ValidCfg) which the harness obeys:  *)
+(*   ity : every integer-like argument (mode, modes entries, skip, skip_matrix, n_modes, order,   *)
+(*         n_samples, tensordot modes / batched modes) is a Python int, numpy.int64 or numpy.int32 *)
+(*   ct  : the container of the operand list (matrices / factors / tensors): list or tuple        *)
+(*   dt  : operand dtypes.  "first" = the data tensor (first operand), "others" = every other     *)
+(*         operand incl. weights and mask:                                                        *)
+(*           same      all float64 (complex128 on a Gaussian draw)                                *)
+(*           int_f     first int64 (real), others float64 / complex128                            *)
+(*           f32_f64   first float32 / complex64, others float64 / complex128                     *)
+(*           real_cplx first float64, others complex128       cplx_real  first complex128, others float64 *)
+(*         The result must be the formula evaluated in the PROMOTED type.  So that a result that   *)
+(*         was cast back to the narrower type of the first operand CHANGES VALUE, the operands the *)
+(*         formula really uses carry a scale (sc, one code per operand: ts.., weights, mask):      *)
+(*           code 1 = the operand passed is (logged integers) / 2        (int_f: all used others)  *)
+(*           code 2 = the operand passed is (logged integers) * (2^26+1) (f32_f64: one used other) *)
+(*         Every operation is linear in each used operand, hence  result = formula(logged) * prod  *)
+(*         of the scales, exactly (dyadic numbers, < 2^53); the harness logs result / prod(scales)  *)
+(*         and `exact` = that quotient is an integer tensor.  A truncated or float32-rounded        *)
+(*         result fails Exact or Value.                                                            *)
+FormFields == {"ity", "dt", "ct", "sc"}
+\* forms each operation is exercised with (forms that the unchanged tree does not handle and the
+\* documentation does not promise are left out -- see the driver's assumptions)
+\*  * tensordot(modes=k) / (batched_modes=k) with k a NumPy integer: both backends test isinstance(k, int)
+\*    and then fail to unpack it (TypeError on the unchanged tree); the docstring says "int list or int"
+\*  * einsum khatri_rao(tuple_of_matrices, weights=w) without skip_matrix does `matrices + [weights]`
+\*    (TypeError on the unchanged tree); the docstring says "2D-array list"
+IntForms(c) == IF c.op = "tensordot" /\ (c.mint \/ c.bint) THEN <<"int">> ELSE <<"int", "i64", "i32">>
+DtForms(c)  == IF c.op = "moment" THEN <<"same", "int_f", "f32_f64">>        \* moments: real data only
+               ELSE <<"same", "int_f", "f32_f64", "real_cplx", "cplx_real">>
+CtForms(c)  == IF c.op \in {"mode_dot", "inner", "tensordot", "moment"} THEN <<"list">>       \* no operand list
+               ELSE IF c.op = "khatri_rao" /\ c.w /\ c.skip < 0 THEN <<"list">>
+               ELSE <<"list", "tuple">>
+
+\* is operand k >= 2 of the tensor list used by the formula?
+UsedOp(c, k) ==
+    CASE c.op = "multi_mode_dot" -> k - 2 # c.skip
+      [] c.op \in {"kronecker", "khatri_rao", "sampled_kr"} -> k - 1 # c.skip
+      [] c.op = "mttkrp" -> k - 2 # c.mode
+      [] OTHER -> TRUE
+ScaleCodes(c) ==
+    LET n == Len(InShapes(c))
+        first == IF c.op \in {"kronecker", "khatri_rao", "sampled_kr"} /\ c.skip = 0 THEN 0 ELSE 1   \* (unused first operand)
+        used == {k \in 2..n : UsedOp(c, k)} \cup (IF HasW(c) THEN {n + 1} ELSE {}) \cup (IF HasMask(c) THEN {n + 2} ELSE {})
+        one == IF used = {} THEN 0 ELSE CHOOSE k \in used : \A m \in used : k <= m
+    IN  [k \in 1..(n + 2) |->
+            IF Raises(c) \/ c.op = "sampled_kr" THEN 0
+            ELSE IF c.dt = "int_f" /\ k \in used THEN 1
+            ELSE IF c.dt = "f32_f64" /\ k = one THEN 2
+            ELSE 0]
+Rot(seq, h) == seq[(h % Len(seq)) + 1]
+\* the forms are ROTATED over the enumerated configurations (a hash of the configuration picks one
+\* combination) instead of multiplying the domain
+WithForms(c) ==
+    LET h  == Hash(Flat(c), 999983)
+        f  == [ity |-> Rot(IntForms(c), h), dt |-> Rot(DtForms(c), h \div 3), ct |-> Rot(CtForms(c), h \div 15)]
+        cf == c @@ f
+    IN  cf @@ [sc |-> ScaleCodes(cf)]
+InSeq(x, seq) == \E k \in 1..Len(seq) : seq[k] = x
+ValidCfg(c) ==
+    /\ BaseOK(c) /\ DOMAIN c = Fields(c.op) \cup FormFields
+    /\ InSeq(c.ity, IntForms(c)) /\ InSeq(c.dt, DtForms(c)) /\ InSeq(c.ct, CtForms(c))
+    /\ c.sc = ScaleCodes(c)
 
 ----------------------------------------------------------------------------
 (* Theorems about the specification (evaluated by TLC in every state of the design run, i.e. for  *)
@@ -672,7 +739,7 @@ VARIABLE cfg
 NoCfg == [op |-> "none"]
 Init == cfg \in {[op |-> "shape", fam |-> f, key |-> k] : f \in Families, k \in UNION {Keys(g) : g \in Families}}
         /\ cfg.key \in Keys(cfg.fam)
-Next == cfg.op = "shape" /\ cfg' \in {c \in Full(cfg.fam, cfg.key) : Keep(c)}
+Next == cfg.op = "shape" /\ cfg' \in {WithForms(c) : c \in {b \in Full(cfg.fam, cfg.key) : Keep(b)}}
 Spec == Init /\ [][Next]_cfg
 SpecOK == cfg.op # "shape" => CfgOK(cfg)
 =============================================================================
